@@ -72,6 +72,13 @@ KINDS = {
     "leaf": dict(name="leaf", ann="Leaf", conf=[["Leaf", {}], ["Leaf", {"x": 1, "ys": ["list", [1]]}], ["dict", [["x", 2]]]],
                  bad=[5, ["dict", [["x", "bad"]]], ["dict", [["nope", 1]]]], mut="Leaf(x=5, ys=[5])",
                  mut_spec=["Leaf", {"x": 5, "ys": ["list", [5]]}], nested="Leaf"),
+    "fleaf": dict(name="leaf", ann="FLeaf", conf=[["Leaf", {}], ["Leaf", {"x": 1, "ys": ["list", [1]]}], ["dict", [["x", 2]]]],
+                  bad=[5, ["dict", [["x", "bad"]]], ["dict", [["nope", 1]]]], mut="FLeaf(x=5, ys=[5])",
+                  mut_spec=["Leaf", {"x": 5, "ys": ["list", [5]]}], nested="Leaf"),
+    "fkids": dict(name="kids", ann="List[FLeaf]", conf=[["list", []], ["list", [["Leaf", {"x": 1}]]],
+                                                        ["list", [["Leaf", {}], ["Leaf", {"x": 2, "ys": ["list", [3]]}]]]],
+                  bad=[["list", [5]]], mut="[FLeaf(x=5)]", mut_spec=["list", [["Leaf", {"x": 5}]]], item="kid",
+                  items=[["Leaf", {}], ["Leaf", {"x": 1}]], bad_items=[5], nested_item="Leaf"),
     "kids": dict(name="kids", ann="List[Leaf]", conf=[["list", []], ["list", [["Leaf", {"x": 1}]]],
                                                        ["list", [["Leaf", {}], ["Leaf", {"x": 2, "ys": ["list", [3]]}]]]],
                  bad=[["list", [5]]], mut="[Leaf(x=5)]", mut_spec=["list", [["Leaf", {"x": 5}]]], item="kid",
@@ -105,7 +112,7 @@ KINDS = {
 }
 SCALAR_KINDS = ["int", "str", "float", "optint", "union", "literal", "bounded", "even"]
 COLLECTION_KINDS = ["nums", "words", "scores", "tags", "kids", "pairs", "units", "parts", "links", "marks"]
-SEQ_KINDS = ["nums", "words", "kids", "units", "links"]
+SEQ_KINDS = ["nums", "words", "kids", "fkids", "units", "links"]
 MAP_KINDS = ["scores", "pairs", "parts"]
 SET_KINDS = ["tags", "marks"]
 ALL_KINDS = SCALAR_KINDS + COLLECTION_KINDS[:4] + ["leaf"] + COLLECTION_KINDS[4:]
@@ -365,7 +372,8 @@ class Env:
             if tag == "dict":
                 return {self.mk(k): self.mk(v) for k, v in spec[1]}
             if tag == "Leaf":
-                return self.Leaf(**{k: self.mk(v) for k, v in spec[1].items()})
+                cls = self.FLeaf if self.rec.get("opts", {}).get("leaf_is_frozen") else self.Leaf
+                return cls(**{k: self.mk(v) for k, v in spec[1].items()})
             if tag == "FLeaf":
                 return self.FLeaf(**{k: self.mk(v) for k, v in spec[1].items()})
             if tag == "Keyed":
